@@ -1,7 +1,347 @@
 package sim
 
-// WalletRec records what the wallet storage wrapper saw (filled in walletwrap.go).
+import (
+	"encoding/hex"
+	"fmt"
+	"os"
+	"path/filepath"
+	"sort"
+	"strings"
+
+	"github.com/elnosh/gonuts/cashu"
+	"github.com/elnosh/gonuts/crypto"
+	"github.com/elnosh/gonuts/wallet"
+	wstorage "github.com/elnosh/gonuts/wallet/storage"
+)
+
+// WalletRec records what the wallet storage wrapper saw.
 type WalletRec struct {
-	Rs       map[string]bool // blinding factors (hex) seen in stored proofs
-	Counters map[string]uint32
+	Rs       map[string]bool   // blinding factors (lower-case hex) seen in stored / pending proofs
+	Secrets  map[string]bool   // secrets of proofs the wallet stored
+	Counters map[string]uint32 // last known counter per keyset (from IncrementKeysetCounter bookkeeping)
 }
+
+func newWalletRec() *WalletRec {
+	return &WalletRec{Rs: map[string]bool{}, Secrets: map[string]bool{}, Counters: map[string]uint32{}}
+}
+
+// simWalletDB wraps the real bbolt storage: Yield -> fault decision -> inner call.
+type simWalletDB struct {
+	s     *Sim
+	inc   *Inc
+	inner wstorage.WalletDB
+	rec   *WalletRec
+	log   *[]SeamCall
+}
+
+func (d *simWalletDB) pre(label string) bool {
+	inj := d.s.Yield(d.inc, "db", label)
+	task := "driver"
+	if t := d.s.CurrentTask(); t != nil {
+		task = t.Name
+	}
+	*d.log = append(*d.log, SeamCall{d.s.Seq(), d.inc.Node, task, label, inj})
+	return inj
+}
+
+func (d *simWalletDB) note(ps cashu.Proofs) {
+	for _, p := range ps {
+		d.rec.Secrets[p.Secret] = true
+		if p.DLEQ != nil && p.DLEQ.R != "" {
+			d.rec.Rs[strings.ToLower(p.DLEQ.R)] = true
+		}
+	}
+}
+
+func (d *simWalletDB) SaveMnemonicSeed(m string, s []byte) { d.inner.SaveMnemonicSeed(m, s) }
+func (d *simWalletDB) GetSeed() []byte                     { return d.inner.GetSeed() }
+func (d *simWalletDB) GetMnemonic() string                 { return d.inner.GetMnemonic() }
+
+func (d *simWalletDB) SaveProofs(p cashu.Proofs) error {
+	if d.pre(fmt.Sprintf("wdb.SaveProofs n=%d", len(p))) {
+		return ErrInjectedDB
+	}
+	d.note(p)
+	return d.inner.SaveProofs(p)
+}
+func (d *simWalletDB) GetProofs() cashu.Proofs {
+	d.pre("wdb.GetProofs")
+	return d.inner.GetProofs()
+}
+func (d *simWalletDB) GetProofsByKeysetId(id string) cashu.Proofs {
+	d.pre("wdb.GetProofsByKeysetId")
+	return d.inner.GetProofsByKeysetId(id)
+}
+func (d *simWalletDB) DeleteProof(s string) error {
+	if d.pre("wdb.DeleteProof") {
+		return ErrInjectedDB
+	}
+	return d.inner.DeleteProof(s)
+}
+func (d *simWalletDB) AddPendingProofs(p cashu.Proofs) error {
+	if d.pre(fmt.Sprintf("wdb.AddPendingProofs n=%d", len(p))) {
+		return ErrInjectedDB
+	}
+	d.note(p)
+	return d.inner.AddPendingProofs(p)
+}
+func (d *simWalletDB) AddPendingProofsByQuoteId(p cashu.Proofs, q string) error {
+	if d.pre(fmt.Sprintf("wdb.AddPendingProofsByQuoteId n=%d", len(p))) {
+		return ErrInjectedDB
+	}
+	d.note(p)
+	return d.inner.AddPendingProofsByQuoteId(p, q)
+}
+func (d *simWalletDB) GetPendingProofs() []wstorage.DBProof {
+	d.pre("wdb.GetPendingProofs")
+	return d.inner.GetPendingProofs()
+}
+func (d *simWalletDB) GetPendingProofsByQuoteId(q string) []wstorage.DBProof {
+	d.pre("wdb.GetPendingProofsByQuoteId")
+	return d.inner.GetPendingProofsByQuoteId(q)
+}
+func (d *simWalletDB) DeletePendingProofs(Ys []string) error {
+	if d.pre(fmt.Sprintf("wdb.DeletePendingProofs n=%d", len(Ys))) {
+		return ErrInjectedDB
+	}
+	return d.inner.DeletePendingProofs(Ys)
+}
+func (d *simWalletDB) DeletePendingProofsByQuoteId(q string) error {
+	if d.pre("wdb.DeletePendingProofsByQuoteId") {
+		return ErrInjectedDB
+	}
+	return d.inner.DeletePendingProofsByQuoteId(q)
+}
+func (d *simWalletDB) SaveKeyset(k *crypto.WalletKeyset) error {
+	if d.pre("wdb.SaveKeyset " + k.Id) {
+		return ErrInjectedDB
+	}
+	return d.inner.SaveKeyset(k)
+}
+func (d *simWalletDB) GetKeysets() crypto.KeysetsMap { return d.inner.GetKeysets() }
+func (d *simWalletDB) GetKeyset(id string) *crypto.WalletKeyset {
+	d.pre("wdb.GetKeyset")
+	return d.inner.GetKeyset(id)
+}
+func (d *simWalletDB) IncrementKeysetCounter(id string, n uint32) error {
+	if d.pre(fmt.Sprintf("wdb.IncrementKeysetCounter %s +%d", id, n)) {
+		return ErrInjectedDB
+	}
+	return d.inner.IncrementKeysetCounter(id, n)
+}
+func (d *simWalletDB) GetKeysetCounter(id string) uint32 {
+	d.pre("wdb.GetKeysetCounter")
+	return d.inner.GetKeysetCounter(id)
+}
+func (d *simWalletDB) UpdateKeysetMintURL(o, n string) error {
+	return d.inner.UpdateKeysetMintURL(o, n)
+}
+func (d *simWalletDB) SaveMintQuote(q wstorage.MintQuote) error {
+	if d.pre("wdb.SaveMintQuote") {
+		return ErrInjectedDB
+	}
+	return d.inner.SaveMintQuote(q)
+}
+func (d *simWalletDB) GetMintQuotes() []wstorage.MintQuote { return d.inner.GetMintQuotes() }
+func (d *simWalletDB) GetMintQuoteById(id string) *wstorage.MintQuote {
+	d.pre("wdb.GetMintQuoteById")
+	return d.inner.GetMintQuoteById(id)
+}
+func (d *simWalletDB) SaveMeltQuote(q wstorage.MeltQuote) error {
+	if d.pre("wdb.SaveMeltQuote") {
+		return ErrInjectedDB
+	}
+	return d.inner.SaveMeltQuote(q)
+}
+func (d *simWalletDB) GetMeltQuotes() []wstorage.MeltQuote { return d.inner.GetMeltQuotes() }
+func (d *simWalletDB) GetMeltQuoteById(id string) *wstorage.MeltQuote {
+	d.pre("wdb.GetMeltQuoteById")
+	return d.inner.GetMeltQuoteById(id)
+}
+func (d *simWalletDB) Close() error { return d.inner.Close() }
+
+// StartWallet loads (or reloads) a wallet on its directory. Driver goroutine, quiet.
+func (w *World) StartWallet(name, mintName string) (*WalletNode, error) {
+	n := w.Wallets[name]
+	if n == nil {
+		n = &WalletNode{Name: name, Dir: filepath.Join(w.Dir, "wallet-"+name), Mint: "http://" + mintName, Rec: newWalletRec()}
+		w.Wallets[name] = n
+	}
+	if n.Inc != nil && n.Inc.Alive {
+		harnessf("wallet %s already running", name)
+	}
+	n.Epoch++
+	inc := &Inc{Node: name, Epoch: n.Epoch, Alive: true}
+	var wl *wallet.Wallet
+	var err error
+	func() {
+		defer func() {
+			if r := recover(); r != nil {
+				err = fmt.Errorf("LoadWallet panicked: %v", r)
+			}
+		}()
+		wl, err = wallet.LoadWallet(wallet.Config{WalletPath: n.Dir, CurrentMintURL: n.Mint})
+	}()
+	if err != nil {
+		n.Epoch--
+		return n, err
+	}
+	n.Inc = inc
+	n.W = wl
+	n.Inner = wl.VerifDB()
+	n.Mnemonic = wl.Mnemonic()
+	wl.VerifWrapDB(func(db wstorage.WalletDB) wstorage.WalletDB {
+		return &simWalletDB{s: w.S, inc: inc, inner: db, rec: n.Rec, log: &w.SeamLog}
+	})
+	w.S.Log("node", "", fmt.Sprintf("wallet %s up epoch %d", name, n.Epoch))
+	return n, nil
+}
+
+func (w *World) StopWallet(name string) {
+	n := w.Wallets[name]
+	if n == nil || n.Inc == nil || !n.Inc.Alive {
+		return
+	}
+	w.S.CrashInc(n.Inc)
+}
+
+// WalletOp runs fn as a task of the wallet's incarnation and returns when it finished or the wallet died.
+func (w *World) WalletOp(name, opname string, plans []*FaultPlan, fn func(wl *wallet.Wallet)) (crashed bool) {
+	n := w.Wallets[name]
+	if n == nil || n.W == nil || !n.Inc.Alive {
+		return true
+	}
+	inc := n.Inc
+	wl := n.W
+	w.S.BeginEpisode(plans...)
+	w.S.Run1(opname, inc, func() { fn(wl) })
+	return !inc.Alive
+}
+
+// ---- token channel ----
+
+// MakeToken serialises proofs the way `nutw send` does.
+func MakeToken(proofs cashu.Proofs, mintURL string, v4, dleq bool) (string, error) {
+	cp := make(cashu.Proofs, len(proofs))
+	copy(cp, proofs)
+	var tok cashu.Token
+	if v4 {
+		t, err := cashu.NewTokenV4(cp, mintURL, cashu.Sat, dleq)
+		if err != nil {
+			return "", err
+		}
+		tok = t
+	} else {
+		t, err := cashu.NewTokenV3(cp, mintURL, cashu.Sat, dleq)
+		if err != nil {
+			return "", err
+		}
+		tok = t
+	}
+	return tok.Serialize()
+}
+
+// ---- wallet state as the harness sees it (through the unwrapped storage) ----
+
+type WalletView struct {
+	Proofs  cashu.Proofs
+	Pending []wstorage.DBProof
+}
+
+func (n *WalletNode) View() WalletView {
+	return WalletView{Proofs: n.Inner.GetProofs(), Pending: n.Inner.GetPendingProofs()}
+}
+
+// MintState reads the state of Ys from the mint's tables through the unwrapped storage
+// (no Lightning side effects).
+func (w *World) MintState(mint string, Ys []string) map[string]string {
+	out := map[string]string{}
+	if len(Ys) == 0 {
+		return out
+	}
+	node := w.Mints[mint]
+	used, err := node.Inner.GetProofsUsed(Ys)
+	if err != nil {
+		harnessf("oracle read: %v", err)
+	}
+	pend, err := node.Inner.GetPendingProofs(Ys)
+	if err != nil {
+		harnessf("oracle read: %v", err)
+	}
+	for _, y := range Ys {
+		out[y] = "UNSPENT"
+	}
+	for _, p := range pend {
+		out[p.Y] = "PENDING"
+	}
+	for _, p := range used {
+		out[p.Y] = "SPENT"
+	}
+	return out
+}
+
+func mintNameOfURL(u string) string { return strings.TrimPrefix(u, "http://") }
+
+// WalletSeed returns the BIP39 seed of the wallet (from its own storage).
+func (n *WalletNode) Seed() []byte {
+	// copy: bbolt hands out a slice into its memory map that is only valid for a moment
+	return append([]byte(nil), n.Inner.GetSeed()...)
+}
+
+// ---- NUT-13 table: the harness's own derivation of the wallet's deterministic outputs ----
+
+type detOut struct {
+	Keyset  string
+	Counter uint32
+	Secret  string
+	R       string // hex
+	B_      string
+}
+
+type DetTable struct {
+	seed    []byte
+	byB     map[string]*detOut
+	bySec   map[string]*detOut
+	byR     map[string]*detOut
+	upTo    map[string]uint32 // per keyset: derived for counters [0, upTo)
+	Entries map[string][]*detOut
+}
+
+func NewDetTable(seed []byte) *DetTable {
+	return &DetTable{seed: seed, byB: map[string]*detOut{}, bySec: map[string]*detOut{}, byR: map[string]*detOut{}, upTo: map[string]uint32{}, Entries: map[string][]*detOut{}}
+}
+
+func (t *DetTable) Extend(keyset string, upTo uint32) {
+	if _, err := hex.DecodeString(keyset); err != nil || len(keyset) != 16 {
+		return
+	}
+	for c := t.upTo[keyset]; c < upTo; c++ {
+		sec, r, err := hNut13(t.seed, keyset, c)
+		if err != nil {
+			return
+		}
+		B_, err := hBlind(sec, r)
+		if err != nil {
+			continue
+		}
+		e := &detOut{Keyset: keyset, Counter: c, Secret: sec, R: scalarHex(r), B_: B_}
+		t.byB[B_] = e
+		t.bySec[sec] = e
+		t.byR[e.R] = e
+		t.Entries[keyset] = append(t.Entries[keyset], e)
+	}
+	if upTo > t.upTo[keyset] {
+		t.upTo[keyset] = upTo
+	}
+}
+
+func sortedKeys[T any](m map[string]T) []string {
+	ks := make([]string, 0, len(m))
+	for k := range m {
+		ks = append(ks, k)
+	}
+	sort.Strings(ks)
+	return ks
+}
+
+func removeDir(p string) { os.RemoveAll(p) }
